@@ -1,7 +1,7 @@
 """C07 — parallel reading is independent of thread count and scheduling."""
 from e2 import E2
 FILES = ['src/reader/batch_reader.c', 'src/reader/page_reader.c', 'src/compression/zstd.c', 'src/simd/dispatch.c', 'src/simd/detect.c', 'src/util/crc32.c']
-BUDGET = {'quick': 1200, 'thorough': 3600}
+BUDGET = {'quick': 840, 'thorough': 3600}
 H = 'harness/e2/c07_par.c'
 STUBS = ['libomp runtime (__kmpc_fork_call, dispatch_init/next, critical, ...): ONE worker executes each parallel region; dynamic-schedule iterations are run in every order (fork)',
          'shared FILE*: at every fread outside a critical section/flockfile another worker may have moved the stream to any offset the stream was ever at (one interference per path)',
@@ -19,6 +19,13 @@ def obligations(tier):
                         fork_max=16, native_replay=True,
                         bounds='2 REQUIRED columns x 2 pages of 3 rows (%s), batch_size 3, num_threads 1..3; every order of the per-column iterations of both OpenMP loops; '
                                'one interfering seek at every unlocked fread of the shared stream (%s mode)' % (cn, MODES[om])))
+    # two modelled workers with preemption: data races between the per-column iterations of the parallel loops
+    for om in (0, 1, 2):
+        for nullable in (1, 0):
+            o.append(E2('workers/%s/%s' % (MODES[om], 'nullable' if nullable else 'required'), H,
+                        defines=['-DMODE=1', '-DOPENMODE=%d' % om, '-DTHREADS=2'] + (['-DNULLABLE'] if nullable else []), all_lib=True, openmp=True, timeout=1100, fork_max=16,
+                        stubs=STUBS + ['two modelled OpenMP workers: dynamic hand-out of iterations; preemption points = iteration boundaries and accesses to bytes on which two iterations conflict (recording pass); at most one preemption per path'],
+                        bounds='2 %s columns x 2 pages of 3 rows, batch_size 3, 2 workers, <= 1 preemption per parallel region path at every conflicting access (%s mode)' % ('OPTIONAL (different null patterns)' if nullable else 'REQUIRED', MODES[om])))
     H2 = 'harness/e2/c07_init.c'
     ISTUBS = ['lazy-init race: globals restarted from every prefix of the initialiser\'s store sequence (x86-TSO visibility order); real hardware reordering / compiler reordering of plain stores not modelled',
               'cpuid: no SIMD features']
